@@ -167,7 +167,7 @@ func c13Triangles(v c13Vec) []*sdf.Triangle3 {
 		case 3: // any exponent
 			return (r.Float64()*2 - 1) * math.Ldexp(1, r.Intn(277)-149)
 		case 4: // exactly half-way between two float32 values, and one float64 ulp either side
-			f := math.Float32frombits(uint32(r.Intn(0x7f000000)))
+			f := math.Float32frombits(uint32(r.Intn(0x7f7ffffe))) // every finite exponent, the top binade included
 			g := math.Float32frombits(math.Float32bits(f) + 1)
 			h := (float64(f) + float64(g)) / 2
 			switch r.Intn(3) {
@@ -181,7 +181,8 @@ func c13Triangles(v c13Vec) []*sdf.Triangle3 {
 			}
 			return h
 		case 5: // signed zeros and small integers
-			return []float64{0, math.Copysign(0, -1), 1, -1, 0.1, -0.3, 16777217, 1e-46, -1e-46}[r.Intn(9)]
+			return []float64{0, math.Copysign(0, -1), 1, -1, 0.1, -0.3, 16777217, 1e-46, -1e-46,
+				math.MaxFloat32, -math.MaxFloat32, 3e38, -2.5e38, math.Ldexp(1, 127), math.Nextafter(math.Ldexp(1, 127), math.Inf(1))}[r.Intn(15)]
 		default: // CAD-like: millimetres with a few decimals
 			return math.Round(r.NormFloat64()*1e5) / 1e3
 		}
@@ -384,7 +385,9 @@ func c13ASCII(ts []*sdf.Triangle3, style int) []byte {
 	for _, t := range ts {
 		b.WriteString(" facet normal 0 0 0" + eol + "  outer loop" + eol)
 		for k := 0; k < 3; k++ {
-			b.WriteString("   vertex " + fm(t[k].X) + " " + fm(t[k].Y) + "  " + fm(t[k].Z) + eol)
+			// any white space separates the keyword from the numbers and the numbers from each other
+			sep := []string{" ", "\t", " \t "}[(style/6)%3]
+			b.WriteString("   vertex" + sep + fm(t[k].X) + " " + fm(t[k].Y) + "  " + fm(t[k].Z) + eol)
 		}
 		b.WriteString("  endloop" + eol + " endfacet" + eol)
 	}
@@ -444,7 +447,15 @@ func c13One(id int, v c13Vec, dir string) []c13Obs {
 		}
 		base.Img = append(base.Img, row)
 	}
-	r := rand.New(rand.NewSource(seed()*31 + int64(id)))
+	// the batch split is a function of the vector, not of its position in the input (a re-run of one vector must
+	// write through the same batches)
+	hv := int64(len(ts))*7919 + v.Seed*31 + int64(v.I) + int64(v.S)*13
+	for _, t := range ts {
+		for _, x := range triCoords(t) {
+			hv = (hv*31 + int64(math.Float64bits(x)>>40)) % 2147483647
+		}
+	}
+	r := rand.New(rand.NewSource(seed()*31 + hv))
 	finish := func(o *c13Obs, path string) {
 		b, err := os.ReadFile(path)
 		if err != nil {
@@ -519,7 +530,14 @@ func c13One(id int, v c13Vec, dir string) []c13Obs {
 		as := base
 		as.Kind = "ascii"
 		p4 := filepath.Join(dir, "ascii.stl")
-		b := c13ASCII(ts, r.Intn(6))
+		// the layout style is a function of the vector (a re-run of one vector must write the same file)
+		style := 0
+		for _, t := range ts {
+			for _, x := range triCoords(t) {
+				style = (style*31 + int(math.Float64bits(x)>>40)) % 1000003
+			}
+		}
+		b := c13ASCII(ts, style%18)
 		os.WriteFile(p4, b, 0644)
 		as.Size = len(b)
 		c13Load(p4, &as)
